@@ -164,9 +164,18 @@ package dht
 // ---- the server: routing-table maintenance seen from the packet handlers ----
 // updateNode and everything below it write only routing-table state: fields of node and bucket objects and the
 // table's maps. (Typed frame, checked structurally on every run: writes-within.)
+//@ func (*dht.Server).updateNode@update
+//@   trusted
+//@   modifies types node, time.Time
 //@ func (*dht.Server).updateNode
-//@   requires nonnil: s != nil && addr != nil
+//@   requires nonnil: s != nil && addr != nil && update != nil
+//@   requires table-root-is-own-id: s.table.rootID.bits == s.id.bits
 //@   modifies types node, bucket, table, time.Time
+//@   callsite (*dht.table).getNode looks-up-this-contact: $addr == addr && id != nil && $id.bits == *id
+//@   callsite (*dht.Server).addNode only-a-new-contact-and-only-when-asked: tryAdd && id != nil && recorded("found") == nil && $n != nil && $n.Id.bits == *id && $n.Id.bits != s.id.bits && $n.Addr == addr && fresh($n)
+//@   ensures never-adds-without-the-flag: !tryAdd ==> count("call:(*dht.Server).addNode") == 0
+//@   ensures no-id-no-entry: id == nil ==> result != nil && count("call:(*dht.Server).addNode") == 0
+//@   ensures one-insertion-attempt-at-most: count("call:(*dht.Server).addNode") <= 1
 
 // ---- C08 / C10 / C19 / C11: the query handler ----
 // Effects are calls of reply / sendError / store.Put and the spawning of AddPeer / OnAnnouncePeer; count("call:f")
@@ -198,6 +207,7 @@ package dht
 //@ func (*dht.Server).handleQuery
 //@   requires nonnil: s != nil && source != nil && iplen(source) && s.store != nil && s.store.s != nil
 //@   requires unlocked-wrapper: !held(s.store.mu)
+//@   requires table-root-is-own-id: s.table.rootID.bits == s.id.bits
 //@   requires globals: krpcErrMissingArguments.Code == 203 && krpc.ErrorMethodUnknown.Code == 204
 //@   requires bep44-globals: bep44.ErrValueFieldTooBig.Code == 205 && bep44.ErrInvalidSignature.Code == 206 && bep44.ErrSaltFieldTooBig.Code == 207 && bep44.ErrCasHashMismatched.Code == 301 && bep44.ErrSequenceNumberLessThanCurrent.Code == 302 && bep44.Empty32ByteArray == 0 && bep44.ErrItemNotFound != nil
 //@   modifies types node, bucket, table, time.Time, bep44.Item, krpc.Return, peer_store.InMemory, krpc.NodeAddr, raw:dht/krpc.NodeAddr
@@ -217,6 +227,7 @@ package dht
 //@   callsite (*dht.Server).reply get-peers-values-and-token: m.Q == "get_peers" && s.config.PeerStore != nil ==> $r.Token != nil && *$r.Token == recorded("token") && $r.Values == recorded("filtered")
 //@   callsite (*dht.Server).reply get-carries-a-token: m.Q == "get" ==> $r.Token != nil && *$r.Token == recorded("token")
 //@   callsite (*dht.Server).createToken token-for-the-asker: $addr == source
+//@   callsite (*dht.Server).updateNode only-the-sender-itself-unless-read-only: $addr == source && $tryAdd == !m.ReadOnly
 //@   callsite (*dht.Server).validToken checks-the-query-token: m.A != nil && $token == m.A.Token && $addr == source
 //@   callsite (*dht.Server).sendError unknown-method-204: !known(m.Q) ==> $e.Code == 204
 //@   callsite (*dht.Server).sendError missing-arguments-203: needsargs(m.Q) && m.A == nil ==> $e.Code == 203
@@ -280,7 +291,7 @@ package dht
 //@   option noalloc
 //@   ensures result == self.String()
 
-//@ spec def handler(s *Server) bool = s != nil && s.store != nil && s.store.s != nil && !held(s.store.mu) && krpcErrMissingArguments.Code == 203 && krpc.ErrorMethodUnknown.Code == 204 && bep44.ErrValueFieldTooBig.Code == 205 && bep44.ErrInvalidSignature.Code == 206 && bep44.ErrSaltFieldTooBig.Code == 207 && bep44.ErrCasHashMismatched.Code == 301 && bep44.ErrSequenceNumberLessThanCurrent.Code == 302 && bep44.Empty32ByteArray == 0 && bep44.ErrItemNotFound != nil
+//@ spec def handler(s *Server) bool = s != nil && s.store != nil && s.store.s != nil && !held(s.store.mu) && s.table.rootID.bits == s.id.bits && krpcErrMissingArguments.Code == 203 && krpc.ErrorMethodUnknown.Code == 204 && bep44.ErrValueFieldTooBig.Code == 205 && bep44.ErrInvalidSignature.Code == 206 && bep44.ErrSaltFieldTooBig.Code == 207 && bep44.ErrCasHashMismatched.Code == 301 && bep44.ErrSequenceNumberLessThanCurrent.Code == 302 && bep44.Empty32ByteArray == 0 && bep44.ErrItemNotFound != nil
 
 //@ func (*dht.transaction).handleResponse
 //@   trusted
@@ -288,7 +299,7 @@ package dht
 //@ func (*dht.Server).processPacket
 //@   requires nonnil: handler(s) && addr != nil && iplen(addr)
 //@   requires unlocked: !held(s.mu)
-//@   modifies *
+//@   modifies types node, bucket, table, time.Time, bep44.Item, krpc.Return, peer_store.InMemory, krpc.NodeAddr, raw:dht/krpc.NodeAddr, transactions.Dispatcher
 //@   callsite (*dht.Server).handleQuery only-queries-of-an-open-server: d.Y == "q" && $source == addr && !recorded("closed") && wheld(s.mu)
 //@   callsite (*dht/transactions.Dispatcher[S]).Have the-key-of-this-datagram: $key.RemoteAddr == addr.String() && $key.T == d.T && wheld(s.mu)
 //@   callsite (*dht/transactions.Dispatcher[S]).Pop the-key-of-this-datagram: d.Y != "q" && $key.RemoteAddr == addr.String() && $key.T == d.T && wheld(s.mu)
@@ -455,3 +466,151 @@ package dht
 //@   option records returnnodes
 //@   callsite (*dht.Server).closestGoodNodeInfos k-is-8: $k == 8 && $targetID == target
 //@   ensures at-most-8: len(result) <= 8
+
+// ---- C05 / C06: the routing table ----
+// An entry is identified by (ID, address string). same(n, addr, id) is that identity test.
+//@ func (*dht.node).hasAddrAndID
+//@   requires nonnil: n != nil && n.Addr != nil && addr != nil
+//@   ensures identity-is-id-and-address: result == (id == n.Id && n.Addr.String() == addr.String())
+
+//@ func (*dht.bucket).Len
+//@   requires nonnil: b != nil
+//@   ensures size: result == len(b.nodes)
+
+//@ func (*dht.bucket).GetNode
+//@   requires nonnil: b != nil && addr != nil
+//@   requires entries-have-addresses: forall m *node :: (m in b.nodes) ==> m != nil && m.Addr != nil
+//@   ensures found-is-a-member-with-that-identity: result != nil ==> (result in b.nodes) && result.Id == id && result.Addr.String() == addr.String()
+//@   ensures absent-means-no-member-has-that-identity: result == nil ==> (forall m *node :: (m in b.nodes) ==> !(m.Id == id && m.Addr.String() == addr.String()))
+//@   loop 1
+//@     invariant none-so-far: forall m *node :: visited(m) ==> !(m.Id == id && m.Addr.String() == addr.String())
+
+//@ func (*dht.bucket).AddNode
+//@   requires nonnil: b != nil
+//@   modifies cell(b.nodes), b.nodes, b.lastChanged
+//@   ensures member: n in b.nodes
+//@   ensures others-untouched: forall m *node :: m != n ==> (m in b.nodes) == old(m in b.nodes)
+//@   ensures grows-by-one-if-new: !old(n in b.nodes) ==> len(b.nodes) == old(len(b.nodes)) + 1
+//@   ensures unchanged-if-present: old(n in b.nodes) ==> len(b.nodes) == old(len(b.nodes))
+
+// table.addNode: the inductive step of the table invariant. A node enters only the bucket given by the length of the
+// prefix its ID shares with the root, only if that bucket has fewer than k entries and holds no entry with the same
+// (ID, address); never the root ID. On refusal nothing changes.
+//@ spec def bidx(tbl *table, id int160.T) int = prefixlen(tbl.rootID.bits, id.bits)
+//@ func (*dht.table).addNode
+//@   requires nonnil: tbl != nil && n != nil && n.Addr != nil
+//@   requires entries-have-addresses: n.Id.bits != tbl.rootID.bits ==> (forall m *node :: (m in tbl.buckets[bidx(tbl, n.Id)].nodes) ==> m != nil && m.Addr != nil)
+//@   modifies types bucket, table, time.Time
+//@   callsite (*dht.bucket).AddNode placed-by-shared-prefix-when-there-is-room-and-no-duplicate: n.Id.bits != tbl.rootID.bits && $b == &tbl.buckets[bidx(tbl, n.Id)] && $n == n && len($b.nodes) < tbl.k && (forall m *node :: (m in $b.nodes) ==> !(m.Id == n.Id && m.Addr.String() == n.Addr.String()))
+//@   ensures root-id-refused: n.Id.bits == tbl.rootID.bits ==> result != nil && count("call:(*dht.bucket).AddNode") == 0
+//@   ensures added-once: result == nil ==> count("call:(*dht.bucket).AddNode") == 1
+//@   ensures refused-untouched: result != nil ==> count("call:(*dht.bucket).AddNode") == 0
+
+// nodeErr: the reasons an entry is unacceptable -- the node's own ID, the zero ID, an insecure ID when enforced, a failed ping
+//@ func (dht/int160.T).IsZero
+//@   inline
+//@ func (*dht.node).IsSecure
+//@   trusted
+//@   option records secure
+//@ func (*dht.Server).nodeErr
+//@   requires nonnil: s != nil && n != nil
+//@   ensures own-id-is-bad: n.Id.bits == s.id.bits ==> result != nil
+//@   ensures zero-id-is-bad: n.Id.bits == 0 ==> result != nil
+//@   ensures failed-ping-is-bad: n.failedLastQuestionablePing ==> result != nil
+//@   ensures insecure-is-bad-when-enforced: n.Id.bits != s.id.bits && n.Id.bits != 0 && !s.config.NoSecurity && count("call:(*dht.node).IsSecure") == 1 && !recorded("secure") ==> result != nil
+//@   ensures otherwise-acceptable: n.Id.bits != s.id.bits && n.Id.bits != 0 && !n.failedLastQuestionablePing && (s.config.NoSecurity || (count("call:(*dht.node).IsSecure") == 1 && recorded("secure"))) ==> result == nil
+
+// ---- C06: who may enter, who may be evicted ----
+// since(t): time elapsed since instant t, as time.Since reports it. A zero time.Time lies far more than 15 minutes back.
+//@ spec uf since(t time.Time) mathint
+//@ spec uf iszero(t time.Time) bool
+//@ axiom zero-time-is-long-ago: forall t time.Time :: iszero(t) ==> since(t) >= 900000000000
+//@ func time.Since
+//@   trusted
+//@   option noalloc
+//@   ensures elapsed: math(result) == since(t)
+//@ func (time.Time).IsZero
+//@   trusted
+//@   option noalloc
+//@   ensures zero: result == iszero(t)
+
+//@ func (*dht.Server).nodeIsBad
+//@   requires nonnil: s != nil && n != nil
+//@   option records isbad
+//@   ensures own-id-is-bad: n.Id.bits == s.id.bits ==> result
+//@   ensures zero-id-is-bad: n.Id.bits == 0 ==> result
+//@ func (*dht.Server).IsGood
+//@   requires nonnil: s != nil && n != nil
+//@   option records isgood
+//@   ensures good-means-acceptable-and-recently-heard-from: result == (!recorded("isbad") && (since(n.lastGotResponse) < 900000000000 || (!iszero(n.lastGotResponse) && since(n.lastGotQuery) < 900000000000)))
+//@   ensures never-answered-is-not-good: iszero(n.lastGotResponse) ==> !result
+
+//@ func (*dht.table).dropNode
+//@   trusted
+//@   modifies types bucket, table
+
+// the eviction decision made for each entry of a full bucket: an entry is dropped only if it is bad, or if it has never
+// answered and the newcomer is good -- hence never an entry that is itself good
+//@ func (*dht.Server).addNode$1
+//@   requires nonnil: s != nil && n != nil && bn != nil && b != nil
+//@   modifies types bucket, table
+//@   callsite (*dht.table).dropNode only-bad-or-never-answered: $n == bn && (recorded("isbad") || (recorded("isgood") && iszero(bn.lastGotResponse)))
+//@   callsite (*dht.Server).nodeIsBad judges-the-resident: $n == bn
+//@   callsite (*dht.Server).IsGood judges-the-newcomer: $n == n
+//@   ensures one-drop-at-most: count("call:(*dht.table).dropNode") <= 1
+//@ lemma good-entries-are-not-evicted: forall r, q time.Time :: forall bad, newgood bool :: (bad || (newgood && iszero(r))) ==> !(!bad && (since(r) < 900000000000 || (!iszero(r) && since(q) < 900000000000)))
+
+//@ func (*dht.bucket).EachNode
+//@   trusted
+//@   modifies types bucket, table
+//@   ensures only-removals: forall m *node :: (m in b.nodes) ==> old(m in b.nodes)
+//@ func (*dht.table).getNode
+//@   trusted
+//@   option records found
+//@ func (*dht.table).bucketForID
+//@   requires nonnil: tbl != nil
+//@   requires not-root: id.bits != tbl.rootID.bits
+//@   ensures the-bucket-of-the-shared-prefix: result == &tbl.buckets[bidx(tbl, id)]
+//@ func (*dht.Server).addNode
+//@   requires nonnil: s != nil && n != nil && n.Addr != nil
+//@   requires table-root-is-own-id: s.table.rootID.bits == s.id.bits
+//@   requires entries-have-addresses: n.Id.bits != s.id.bits ==> (forall m *node :: (m in s.table.buckets[bidx(&s.table, n.Id)].nodes) ==> m != nil && m.Addr != nil)
+//@   modifies types bucket, table, time.Time
+//@   callsite (*dht.table).addNode only-acceptable-nodes: $n == n && !recorded("isbad")
+//@   callsite (*dht.Server).nodeIsBad judges-the-newcomer: $n == n
+//@   ensures bad-nodes-are-refused: recorded("isbad") ==> result != nil && count("call:(*dht.table).addNode") == 0
+//@   ensures one-insertion-at-most: count("call:(*dht.table).addNode") <= 1
+
+// ---- C19 (inbound) / C06 / C08: the read loop ----
+//@ func (net.PacketConn).ReadFrom
+//@   trusted
+//@   option records1 readaddr
+//@   ensures count-within-the-buffer: 0 <= result0 && result0 <= len(p)
+//@ func dht.addrIP
+//@   trusted
+//@   option records srcip
+//@ func dht.addrPort
+//@   trusted
+// a datagram read from the socket comes from an address with a 4- or 16-byte IP (assumption on the socket layer)
+//@ func dht.NewAddr
+//@   trusted
+//@   option records newaddr
+//@   ensures usable: result != nil && iplen(result)
+//@ func (*dht.Server).ipBlocked
+//@   requires nonnil: s != nil
+//@   option records srcblocked
+//@   callsite (github.com/anacrolix/torrent/iplist.Ranger).Lookup looks-up-the-given-address: $0 == ip
+//@   ensures blocklist-verdict: result == (s.ipBlockList != nil && recorded("blocked"))
+//@ func dht.ignoreReadFromError
+//@   trusted
+
+//@ func (*dht.Server).serve
+//@   requires nonnil: handler(s) && s.socket != nil
+//@   requires unlocked: !held(s.mu)
+//@   modifies *
+//@   callsite dht.addrIP of-the-datagram-just-read: $addr == recorded("readaddr")
+//@   callsite (*dht.Server).ipBlocked checks-the-source-of-this-datagram: $ip == recorded("srcip") && held(s.mu)
+//@   callsite dht.NewAddr of-the-datagram-just-read: $raw == recorded("readaddr")
+//@   callsite (*dht.Server).processPacket only-datagrams-from-unblocked-sources: !recorded("srcblocked") && !recorded("closed") && $addr == recorded("newaddr") && !held(s.mu)
+//@   loop 1
+//@     invariant no-lock-held-between-datagrams: !held(s.mu) && !held(s.store.mu)
